@@ -533,6 +533,12 @@ func cmdSelftest(args []string) int {
 		}
 		s.Close()
 	}
+	n, bad := selftestUTF8()
+	if bad != "" {
+		fmt.Println("selftest:", bad)
+		return 1
+	}
+	fmt.Printf("selftest: utf8.DecodeRune term model agrees with the real function on %d inputs\n", n)
 	fmt.Println("selftest ok")
 	return 0
 }
